@@ -293,7 +293,8 @@ def tie(ctx, model_ok=True):
                 continue
             t = ('{| ec_oracle := ' + encode.oracle_term(loadcase.doc_scalars(c)) + '; ec_specs := ' + c.model.reg_term()
                  + '; ec_type := ' + c.model.ty_term(c.tyspec) + '; ec_doc := ' + encode.node_term(c.doc, marks=True)
-                 + '; ec_cited := [' + '; '.join(f'({a - 1}, {b - 1})%nat' for a, b in sorted(set(cited(msg)))) + '] |}')
+                 + '; ec_cited := [' + '; '.join(f'({a - 1}, {b - 1})%nat' for a, b in sorted(set(cited(msg)))) + ']; ec_exact := '
+                 + ('false' if any(s.get('recognize') is not None for s in c.specs) else 'true') + ' |}')
         except Exception:      # noqa
             continue
         if len(t) < 200000:
